@@ -159,6 +159,8 @@ const (
 	sigIndexWriteSkew        = "C16/structure/index-content/write-overlaps-create-index"
 	sigSharedTxnOpenIterator = "C16/fatal/shared-txn/unclosed-iterator-at-commit"
 	sigIndexLostUpdate       = "C16/accounting/index/lost-by-concurrent-change-of-another-index"
+	sigTxnCounter            = "C16/accounting/counter/shared-txn/overlapping-increments-in-one-transaction-not-atomic"
+	sigBurstConflict         = "C16/merge-lost/conflict-between-merges-of-one-document"
 	sigIndexStaleDoc         = "C16/structure/index-content/collection-update-with-stale-document"
 	sigPushHeadsPanic        = "C16/fatal/unclosed-iterator/net.(*Peer).pushHeadsForAllDocs-returns-early"
 )
